@@ -204,36 +204,35 @@ def r4_absent_params(ctx):
 
 def rws_separator_sees_no_whitespace(ctx, rule="C16.WS"):
     """next_inner decides `[` / `,` / `]` from the *first byte* of the stored remainder, so the remainder must never start
-    with whitespace: every store of a non-constant remainder into self.0 is the result of trim_start (or the first-byte
-    test itself is preceded by a trim_start on every path). Otherwise `[1 ,2]` or `[1 ]` - which a plain JSON parse
-    accepts - is reported as invalid params"""
+    with whitespace: every store of a non-constant remainder into the cursor (`self.0`), in whichever ParamsSequence
+    method, is the result of trim_start (or the first-byte test itself is preceded by a trim_start on every path).
+    Otherwise `[1 ,2]` / `[1, null ]` - which a plain JSON parse accepts - is reported as invalid params"""
     F, R = ctx.F, ctx.R
     tr = ctx.tracer(follow_callers=False, follow_fields=False, inline_calls=False)
-    b = F.one(r"^jsonrpsee_types::params::ParamsSequence::<'a>::next_inner$")
-    R.fn(b)
-    firsts = b.calls_to(r"slice::<impl \[T\]>::first$|str::<impl str>::(chars|bytes|starts_with|strip_prefix)$")
+    ni = F.one(r"^jsonrpsee_types::params::ParamsSequence::<'a>::next_inner$")
+    firsts = ni.calls_to(r"slice::<impl \[T\]>::first$|str::<impl str>::(chars|bytes|starts_with|strip_prefix)$")
     if not firsts:
         raise AnchorLost("the first-byte test of next_inner")
-    trims = b.calls_to(r"str::<impl str>::trim_start$|str::<impl str>::trim$")
-    pre = any(flow.all_paths_pass(b, 0, {t.bb}, {f.bb}) for t in trims for f in firsts) if trims else False
-    stores = []
-    for bi, blk in enumerate(b.blocks):
-        if blk.get("cleanup") or bi not in b.reachable:
-            continue
-        for st in blk["st"]:
-            if st["s"] == "assign" and st["pl"]["l"] == 1 and [e for e in st["pl"].get("p", []) if isinstance(e, dict) and "f" in e]:
-                stores.append((bi, st))
+    trims = ni.calls_to(r"str::<impl str>::trim_start$|str::<impl str>::trim$")
+    pre = any(flow.all_paths_pass(ni, 0, {t.bb}, {f.bb}) for t in trims for f in firsts) if trims else False
     n = 0
-    for bi, st in stores:
-        if st["rv"]["k"] != "use":
-            continue
-        lv = tr.origins(b, st["rv"]["op"])
-        if lv and all(l.kind == "const" for l in lv):
-            continue   # poisoning with ""
-        n += 1
-        trimmed = any(l.kind == "call" and re.search(r"str::<impl str>::trim(_start)?$", l.detail["callee"] or "") for l in lv)
-        R.check(trimmed or pre, rule, "next_inner:remainder-trimmed", "the remainder stored after an element starts at the next token", "next_inner stores the remainder after an element without skipping whitespace (%s) although the next call looks at its first byte: `[1 ,2]` / `[1 ]` are then rejected as invalid params while a plain JSON parse accepts them" % [flow.leaf_str(l)[:60] for l in lv], "%s:%d" % (b.file, st["sp"][0]))
-    R.floor(rule, n, 1, "stores of the remaining text in next_inner")
+    for b in F.find(r"^jsonrpsee_types::params::ParamsSequence::<'a>::\w+$"):
+        R.fn(b)
+        for bi, blk in enumerate(b.blocks):
+            if blk.get("cleanup") or bi not in b.reachable:
+                continue
+            for st in blk["st"]:
+                if not (st["s"] == "assign" and st["pl"]["l"] == 1 and [e for e in st["pl"].get("p", []) if isinstance(e, dict) and "f" in e]):
+                    continue
+                if st["rv"]["k"] != "use":
+                    continue
+                lv = tr.origins(b, st["rv"]["op"])
+                if lv and all(l.kind == "const" for l in lv):
+                    continue   # poisoning with ""
+                n += 1
+                trimmed = any(l.kind == "call" and re.search(r"str::<impl str>::trim(_start)?$", l.detail["callee"] or "") for l in lv)
+                R.check(trimmed or pre, rule, "%s:remainder-trimmed" % b.path.split("::")[-1], "the remainder stored after an element starts at the next token", "ParamsSequence::%s stores the remainder after an element without skipping whitespace (%s) although the next read looks at its first byte: `[1 ,2]` / `[1, null ]` are then rejected as invalid params while a plain JSON parse accepts them" % (b.path.split("::")[-1], [flow.leaf_str(l)[:60] for l in lv]), "%s:%d" % (b.file, st["sp"][0]))
+    R.floor(rule, n, 1, "stores of the remaining text in ParamsSequence")
 
 
 def rgen_generated_decoders(ctx):
